@@ -7,13 +7,18 @@ from .engine import Unsupported, PyRaise, Frame, class_table, is_subclass, _not,
 pow_ = z3.Function("pow", RealS, RealS, RealS)
 log_ = z3.Function("ln", RealS, RealS)
 
-BUILTINS = {"abs", "len", "sum", "min", "max", "isinstance", "float", "int", "list", "dict", "set", "zip", "range",
+BUILTINS = {"super", "abs", "len", "sum", "min", "max", "isinstance", "float", "int", "list", "dict", "set", "zip", "range",
             "sorted", "defaultdict", "deque", "type", "all", "any", "tuple", "enumerate", "bool", "getattr",
             "OrderedDict", "str", "repr", "print", "iter", "next", "round"}
 MODULES = {"np", "numpy", "bisect", "itertools", "datetime", "random", "calendar", "pd", "inspect", "timedelta",
            "tradingenv"}
 EXC_NAMES = {"ValueError", "KeyError", "TypeError", "IndexError", "AttributeError", "StopIteration", "Exception",
              "NotImplementedError", "EndOfEpisodeError", "ZeroDivisionError"}
+
+
+class SuperRef:
+    def __init__(self, obj, cls):
+        self.obj, self.cls = obj, cls
 
 
 class KeyIter:
@@ -64,6 +69,8 @@ def getattr_value(I, o, attr):
             return BoundMethod(o, attr)
         raise Unsupported("contract attribute %s" % attr)
     if isinstance(o, Obj) and o.kind in ("map", "seq", "objmap"):
+        return BoundMethod(o, attr)
+    if isinstance(o, SuperRef):
         return BoundMethod(o, attr)
     if isinstance(o, Fl) and attr in ("total_seconds", "date"):
         return BoundMethod(o, attr)
@@ -199,6 +206,15 @@ def call_method(I, r, name, args, kwargs):
             I.add_key(k)
             return KeyV(k)
         raise Unsupported("contract method %s" % name)
+    if isinstance(r, SuperRef):
+        # the only base-class call in the code under contract: dict.__init__(data) of the allocation classes
+        if name == "__init__" and is_subclass(r.cls, "dict") or name == "__init__" and "dict" in _bases(r.cls):
+            data = args[0] if args else None
+            if isinstance(data, Obj) and data.kind == "map":
+                p = I.heap[data.oid]
+                I.fset(r.obj, "_items", I.new_map(p["get"], p["dom"], None, "dict"))
+                return None
+        raise Unsupported("super().%s of %s" % (name, r.cls))
     if isinstance(r, Fl):
         if name == "total_seconds":
             return r
@@ -225,7 +241,35 @@ def call_method(I, r, name, args, kwargs):
             return vite(p["dom"](k.t), p["get"](k.t), lift_fl(d))
     if isinstance(r, Obj) and r.kind == "seq":
         return seq_method(I, r, name, args, kwargs)
+    if isinstance(r, Obj) and r.kind == "objmap" and I.heap[r.oid].get("keyed_list") and name == "append":
+        rec = args[0]
+        if not (isinstance(rec, Obj) and rec.kind == "rec"):
+            raise Unsupported("append of %r to a keyed list" % (rec,))
+        f = I.heap[rec.oid]
+        k = f["contract"].t
+        I.add_key(k)
+        for col in list(I.heap[r.oid]["cols"]):
+            if col != "contract":
+                I.colset(r, col, k, lift_fl(f[col]))
+        p = I.heap[r.oid]
+        od = p["dom"]
+        p["dom"] = lambda x, od=od, k=k: z3.simplify(z3.Or(x == k, od(x)))
+        I.wrote(r.oid, "append")
+        return None
     raise Unsupported("method %s of %r" % (name, r))
+
+
+def _bases(cls):
+    out, stack = set(), [cls]
+    t = class_table()
+    while stack:
+        c = stack.pop()
+        if c in t:
+            for b in t[c][1]:
+                if b not in out:
+                    out.add(b)
+                    stack.append(b)
+    return out
 
 
 def construct(I, cls, args, kwargs):
@@ -245,6 +289,9 @@ def construct(I, cls, args, kwargs):
 
 
 def call_builtin(I, name, args, kwargs):
+    if name == "super":
+        o = Opaque("super")
+        return SuperRef(I.frame().env.get("self"), I.frame().qual.split(".")[0])
     if name == "abs":
         a = args[0]
         if isinstance(a, In):
@@ -300,6 +347,9 @@ def call_builtin(I, name, args, kwargs):
             return list(a)
         if isinstance(a, KeyIter):
             return a
+        if isinstance(a, Obj) and a.kind == "rec" and "_items" in I.heap[a.oid]:
+            p = I.heap[I.heap[a.oid]["_items"].oid]
+            return KeyIter(p["dom"], p["get"], "keys", a)
         raise Unsupported("list(%r)" % (a,))
     if name == "sum":
         a = args[0]
